@@ -43,6 +43,9 @@ Fixpoint set_nth {A} (l : list A) (n : nat) (x : A) : list A :=
 Fixpoint nodupb (l : list str) : bool :=
   match l with [] => true | x :: r => (negb (existsb (str_eqb x) r) && nodupb r)%bool end.
 
+Fixpoint nodupn (l : list nat) : bool :=
+  match l with [] => true | x :: r => (negb (existsb (Nat.eqb x) r) && nodupn r)%bool end.
+
 Fixpoint index_of (o : nat) (l : list nat) : option nat :=
   match l with
   | [] => None
@@ -521,7 +524,7 @@ Definition view_ok (s : astate) (o : oid) : bool :=
   | None => false
   end.
 Definition sys_wf (y : sys) : bool :=
-  (attr_wf (fst y) && forallb (view_ok (fst y)) (snd y) && nodupb (map (fun o => [N.of_nat o]) (snd y)))%bool.
+  (attr_wf (fst y) && forallb (view_ok (fst y)) (snd y) && nodupn (snd y))%bool.
 
 Definition acc_wf (node_ns : str) (a : acc) : bool :=
   match acc_q node_ns a with Some q => plainq q | None => false end.
